@@ -157,6 +157,21 @@ def replay_kani(j):
 # ------------------------------------------------------------------------------------------------
 V_LAYOUT = {'kind': 'verus', 'unit': 'layout', 'cex': 'bx-layout'}
 BX_SIMPLE = {'kind': 'bx', 'name': 'simple', 'strategy': 'simple'}
+# thorough tier: four differently shaped bounds (more data / more additions / wider window)
+BX_THOROUGH = [
+    {'kind': 'bx', 'name': 'simple-4data', 'strategy': 'simple',
+     'bounds': {'max_data': 4, 'max_add': 2, 'window': 16, 'shapes': '0:1,1:1,2:2,3:1,4:4,8:8', 'timeout': 3600}},
+    {'kind': 'bx', 'name': 'simple-3adds', 'strategy': 'simple',
+     'bounds': {'max_data': 3, 'max_add': 3, 'window': 16, 'shapes': SHAPES_Q, 'timeout': 3600}},
+    {'kind': 'bx', 'name': 'simple-wide', 'strategy': 'simple',
+     'bounds': {'max_data': 3, 'max_add': 2, 'window': 32, 'shapes': '0:1,1:1,2:2,4:4,8:8,16:16,24:8', 'timeout': 3600}},
+    {'kind': 'bx', 'name': 'simple-4data-3adds', 'strategy': 'simple',
+     'bounds': {'max_data': 4, 'max_add': 3, 'window': 12, 'shapes': '0:1,1:1,2:2,4:4', 'timeout': 3600}},
+]
+
+
+def bx_units(tier):
+    return [BX_SIMPLE] + (BX_THOROUGH if tier == 'thorough' else [])
 
 LAYOUT_ASSUME = [
     'simple() and compute_initial_gaps() are outside both verifiers (BTreeMap entry API, stateful filter_map closure, '
@@ -166,7 +181,7 @@ LAYOUT_ASSUME = [
 PROPERTIES = {
     'C01': {
         'level': 'model_checking',
-        'units': lambda tier: [V_LAYOUT, BX_SIMPLE],
+        'units': lambda tier: [V_LAYOUT] + bx_units(tier),
         'explanation': 'Verus proves, on text extracted from /repo on this run, that align_bytes, end, push_datum, append_data, '
                        'append_data_reverse and basic map every WF variant list to a WF list (address order incl. zero-size data => '
                        'pairwise disjoint byte ranges, lemma_wf_implies_disjoint). simple() is executed natively on every pre-state '
@@ -308,26 +323,26 @@ def k_simple(tier):
 
 PROPERTIES['C13'] = {
     'level': 'model_checking',
-    'units': lambda tier: [V_NATIVE, K_DEF, V_LAYOUT, BX_SIMPLE],
+    'units': lambda tier: [V_NATIVE, K_DEF, V_LAYOUT] + bx_units(tier),
     'explanation': 'Display: fmt_variant_representation (extracted, write! statements dropped) is proved panic-free by Verus for every variant list in address order, '
                    'which the strategy contracts establish (Verus for append/basic, bounded for simple). max_size / max_type_align: Kani, no panic on any '
                    'state the builder can leave (incl. data added and removed before close).',
     'unchecked': ['generate() itself (string emission through codegen/format!) and "the generated module compiles with any fragment selection": outside both verifiers; the corpus modules of gk compile, which is observed, not decided'],
 }
 
-PROPERTIES['C01']['units'] = lambda tier: [V_LAYOUT, BX_SIMPLE, k_simple(tier), K_DEF, V_BUILDER]
+PROPERTIES['C01']['units'] = lambda tier: [V_LAYOUT] + bx_units(tier) + [k_simple(tier), K_DEF, V_BUILDER]
 PROPERTIES['C02'] = dict(PROPERTIES['C01'])
-PROPERTIES['C02']['units'] = lambda tier: [V_LAYOUT, BX_SIMPLE, k_simple(tier), K_DEF, GK]
+PROPERTIES['C02']['units'] = lambda tier: [V_LAYOUT] + bx_units(tier) + [k_simple(tier), K_DEF, GK]
 PROPERTIES['C02']['explanation'] = ('Alignment and address order are clauses of the variant invariant WF proved (Verus) for align_bytes, end, push_datum, append_data, '
     'append_data_reverse, basic on text extracted from /repo; simple() bounded. Capacity and record alignment: Kani contract of max_size / max_type_align '
     '(every datum of a variant ends at or before max_size, max_type_align is a multiple of its alignment). Published constants: corpus harnesses assert '
     'MAX_SIZE == capacity of the definition, align_of::<RecordK>() == its alignment, every field offset/size inside.')
 PROPERTIES['C03'] = dict(PROPERTIES['C01'])
-PROPERTIES['C03']['units'] = lambda tier: [V_LAYOUT, BX_SIMPLE, K_DEF, V_BUILDER, GK]
+PROPERTIES['C03']['units'] = lambda tier: [V_LAYOUT] + bx_units(tier) + [K_DEF, V_BUILDER, GK]
 PROPERTIES['C03']['explanation'] = ('First sentence = frame clause of the strategy contract (only offsets of data_to_add change; Verus for append/basic/push_datum, bounded for '
     'simple) + close_record_variant_with leaves earlier variants untouched and add_datum only appends (Verus, unit builder). Second sentence: corpus harnesses '
     'assert equal size_of / align_of of all CappedRecordK<CAP> for CAP = MAX_SIZE, MAX_SIZE+1, 2*MAX_SIZE+3.')
 PROPERTIES['C03']['unchecked'] = ['"a repr(align(N)) struct of one [u8; CAP] has size roundup(CAP, N)" is Rust\'s layout rule: evaluated by the compiler for the corpus instances, assumed in general']
-PROPERTIES['C12']['units'] = lambda tier: [V_BUILDER, K_B5, V_LAYOUT, BX_SIMPLE, K_DEF]
+PROPERTIES['C12']['units'] = lambda tier: [V_BUILDER, K_B5, V_LAYOUT] + bx_units(tier) + [K_DEF]
 PROPERTIES['C12']['unchecked'] = ['native builder operations are one-line delegations to the generic builder (not extracted)',
                                   'name lookups are checked by Kani on a bounded family of states only (unit kani-builder-lookup); Verus uses their contract as an assumption']
